@@ -895,6 +895,15 @@ example : runCtx .write demoNode [demoCtxAdminT, demoCtxNone, demoCtxNone, demoC
     [.status (conc 0 31 0) .unsupportedAccess, .status (conc 0 31 0) .unsupportedAccess,
      .status (conc 1 6 1) .unsupportedAccess] := by decide
 
+/-- the hypothesis of `denied_request_calls_no_handler` is satisfiable: node 5 may not touch endpoint 0,
+a write to `0/31/0` (and a read of it) yields its status and no handler call -/
+example : (imRequest .write false none [conc 0 31 0]
+      (expand (demoCtx false) .write demoNode [conc 0 31 0] 10)).effects = [] ∧
+    (imRequest .write false none [conc 0 31 0]
+      (expand (demoCtx false) .write demoNode [conc 0 31 0] 10)).resp = [.status (conc 0 31 0) .unsupportedAccess] ∧
+    (imRequest .write true (some (100, 5)) [conc 1 6 1]
+      (expand (demoCtx true) .write demoNode [conc 1 6 1] 10)).effects = [(1, 6, 1)] := by decide
+
 /-- events: endpoint 1 / cluster 6 with events 0 (`RV`) and 1 (`R` + Manage) -/
 def demoNodeEv : Node :=
   [ { id := 1, deviceTypes := [256], clusters :=
